@@ -167,6 +167,139 @@ def src_check(modes, quick_n, thorough_n, rule, oracle):
     return run
 
 
+def faithful_walk(segs):
+    """line numbers the *code* reports (deletions under the OLD file's number, surplus removals dropped) - known findings D1/D9"""
+    new_no, old_no, pending, prev_add, out = 1, 1, [], False, []
+    def flush():
+        nonlocal pending
+        if not prev_add and pending:
+            out.append((pending[0], False))
+        pending = []
+    for c in segs:
+        if c == "k":
+            flush(); new_no += 1; old_no += 1; prev_add = False
+        elif c == "d":
+            pending.append(old_no); old_no += 1; prev_add = False
+        else:
+            if pending:
+                pending.pop(0); out.append((new_no, True))
+            else:
+                out.append((new_no, False))
+            new_no += 1; prev_add = True
+    flush()
+    return out
+
+
+def repaired_walk(segs):
+    """what the property asks for: every added line at its number, every deletion gap at the line after it (new-file numbering)"""
+    new_no, pending, out = 1, 0, []
+    for c in segs:
+        if c == "k":
+            if pending:
+                out.append((new_no, False)); pending = 0
+            new_no += 1
+        elif c == "d":
+            pending += 1
+        else:
+            if pending:
+                pending -= 1; out.append((new_no, True))
+            else:
+                out.append((new_no, False))
+            new_no += 1
+    if pending:
+        out.append((new_no, False))
+    return out
+
+
+def d10_class(case):
+    """unidiff re-reads hunk bodies for file headers: a removed line starting with `-- ` / an added line starting with `++ `"""
+    d = case.get("diff") or ""
+    return any(l.startswith("--- ") and not l.startswith("--- a/") and not l.startswith("--- /dev/null") for l in d.split("\n")) or \
+        any(l.startswith("+++ ") and not l.startswith("+++ b/") for l in d.split("\n"))
+
+
+def drift_eval(case, impl):
+    """ground truth of the edit script vs the implementation: list of (problem, explained_by_known_finding)"""
+    out = []
+    meta = case["meta"]
+    if "panic" in impl:
+        return [(f"panic: {impl['panic']}", None)]
+    err = impl.get("ctx", {}).get("err")
+    if err:
+        if str(err[0].get("kind", "")).startswith("diff-"):
+            return [(f"a diff git can emit is rejected: {err[0]}", "D10" if d10_class(case) else None)]
+        return [(f"unexpected error {err[0]}", None)]
+    files = impl["ctx"]["files"]
+    for mf in meta["files"]:
+        listed = {b["attrs"].get("name"): b for b in files.get(mf["path"], [])}
+        adds, gaps = mf["adds"], mf["gaps"]
+        F = faithful_walk(mf["segs"])
+        known_possible = F != repaired_walk(mf["segs"])
+        for b in mf["blocks"]:
+            s, e, name = b["s"], b["e"], b["name"]
+            inside_add = any(s < j < e for j in adds)
+            inside_del = any(s <= g and g + 1 <= e for g in gaps)
+            far = all(j < s - 1 or j > e + 1 for j in adds) and all(g + 1 < s - 1 or g > e + 1 for g in gaps)
+            got = listed.get(name)
+            f_content = any(s < l < e for l, _ in F) or any(l in (s, e) and not ed for l, ed in F)
+            f_listed = any(s <= l <= e for l, _ in F)
+            if (inside_add or inside_del) and not (got and got["content_modified"]):
+                expl = "D1/D9" if (known_possible and not inside_add and not f_content) else None
+                out.append((f"{mf['path']}:{name} (lines {s}-{e}): a line strictly inside was {'added/edited' if inside_add else 'deleted'} but the block is {'not listed' if not got else 'not marked content-modified'}", expl))
+            if far and got and not meta.get("globs"):
+                expl = "D1/D9" if (known_possible and f_listed) else None
+                out.append((f"{mf['path']}:{name} (lines {s}-{e}): every change is at least two lines away from the block but it is listed (content_modified={got['content_modified']})", expl))
+            if meta.get("globs") and not got:
+                out.append((f"{mf['path']}:{name}: path arguments given but the block is not listed", None))
+        for c in mf["classes"]:
+            b = next(x for x in mf["blocks"] if x["name"] == c["block"])
+            s, e = b["s"], b["e"]
+            others_inside = any(s < j < e for j in adds) or any(s <= g and g + 1 <= e for g in gaps)
+            got = listed.get(c["block"])
+            if c.get("content") is False and not others_inside and not meta.get("globs"):
+                # isolated edit of the tag line / end-tag line
+                near = [j for j in adds if s - 1 <= j <= e + 1] + [g for g in gaps if s - 1 <= g + 1 <= e + 1]
+                expected_near = 1
+                if len(near) == expected_near:
+                    if c["listed"] and not got:
+                        out.append((f"{mf['path']}:{c['block']}: {c['class']} must select the block", "D1/D9" if known_possible and not any(s <= l <= e for l, _ in F) else None))
+                    if got and got["content_modified"]:
+                        out.append((f"{mf['path']}:{c['block']}: {c['class']} must not mark the content modified", "D1/D9" if known_possible else None))
+                    if not c["listed"] and got:
+                        out.append((f"{mf['path']}:{c['block']}: {c['class']} must not select the block", "D1/D9" if known_possible else None))
+    return out
+
+
+def oracle_drift(case, impl):
+    return [p for p, k in drift_eval(case, impl) if k is None]
+
+
+def drift_known_counts(rows):
+    c = {}
+    for case, impl, _ in rows:
+        for _, k in drift_eval(case, impl):
+            if k:
+                c[k] = c.get(k, 0) + 1
+    return c
+
+
+def oracle_expect(case, impl):
+    """hand-written expectation: which blocks are listed with which flag"""
+    exp = case.get("meta", {}).get("expect", {})
+    probs = []
+    if "panic" in impl:
+        return [f"panic: {impl['panic']}"]
+    files = impl.get("ctx", {}).get("files")
+    if files is None:
+        return [f"unexpected error {impl.get('ctx', {}).get('err')}"]
+    for path, want in exp.get("files", {}).items():
+        got = sorted(((b["attrs"].get("name"), b["content_modified"]) for b in files.get(path, [])), key=str)
+        w = sorted(((x["name"], x["content_modified"]) for x in want), key=str)
+        if got != w:
+            probs.append(f"{path}: listed blocks (name, content_modified) {got}, expected {w}")
+    return probs
+
+
 def oracle_unbalanced(case, impl):
     """C12: the run must fail and name the damaged file"""
     bad = case["meta"]["bad"]
@@ -183,6 +316,15 @@ def oracle_unbalanced(case, impl):
 
 
 CHECKS = {
+    "C01": {
+        "module": "Bw.Props.C01", "trusted_base": TB_COMMON + ["unidiff 0.4 is modelled as a specification (Bw/Unidiff.lean) and compared; git's diff output is imitated by the generator (change groups, any -U width, new files, `\\ No newline` markers)"],
+        "level_note": DEFAULT_LEVEL_NOTE + " The full-strength statement holds for the repaired walk; for the code it is violated exactly in the known classes D1/D9 (witness theorems d1_witness/d9_witness) and D10 (dependency).",
+        "run": None,
+    },
+    "C02": {
+        "module": "Bw.Props.C02", "trusted_base": TB_COMMON,
+        "run": None,
+    },
     "C03": {
         "module": "Bw.Props.C03", "trusted_base": TB_COMMON + ["which byte ranges are comment nodes is tree-sitter's decision: the harness reads the node list from the same grammar crates; the constructed ground truth (blocks the generator wrote inside comments, decoys in strings/code) checks the whole chain on the implementation"],
         "level_note": DEFAULT_LEVEL_NOTE + " Partial: tree-sitter grammars (which bytes are comments) are exercised against constructed ground truth, not proved.",
@@ -231,6 +373,30 @@ CHECKS = {
 }
 
 
+def diff_check(modes, quick_n, thorough_n, rule):
+    def run(rep, tier, seed, tr):
+        n = n_for(tier, quick_n, thorough_n)
+        rep.rules.append(rule)
+        for mode in modes:
+            rows = K.run_component(rep.prop, f"diff {mode}", [], seed, n, tier)
+            def nontrivial(case, impl, model):
+                return any(f["adds"] or f["gaps"] for f in case["meta"]["files"]) and has_blocks(case, impl, model)
+            K.correspondence(rep, rows, f"diff {mode}", nontrivial, known=K.load_known(rep.prop), oracle=oracle_drift)
+            for k, v in drift_known_counts(rows).items():
+                rep.count(f"diff {mode}:ground-truth-failure-in-known-class:{k}", v)
+            for case, _, _ in rows:
+                for f in case["meta"]["files"]:
+                    for c in f["classes"]:
+                        rep.count(f"diff {mode}:class:{c['class']}")
+    return run
+
+
+CHECKS["C01"]["run"] = diff_check(["drift"], 6000, 100000,
+    "1-3 files (py/rs/js/rb/sql/go/sh, directories incl. a/ b/ b/b/ and names with spaces) with 1-3 sibling or nested blocks carrying affects references (same-file, cross-file, comma lists, cycles, missing targets) and rules; abstract edit scripts (add / edit / delete groups anywhere, targeted classes inside-add, inside-edit, inside-del, tag-attr-edit, tag-line-noise-edit, end-tag-edit, outside) rendered as git writes them with -U0/1/3/10, new files, no-newline markers, shuffled file sections; ground truth from the edit script; non-trivial = some change and some block listed")
+CHECKS["C02"]["run"] = diff_check(["select"], 6000, 100000,
+    "as C01 with sibling blocks only, violating / non-violating rules on every block, one third of the cases with path arguments (every block of every matching file must be listed); targeted edit classes decide selected / content-modified per block; non-trivial = some change and some block listed")
+
+
 def replay(prop, path):
     """re-run one recorded case against the current tree and the model; print both outcomes"""
     data = json.load(open(path))
@@ -261,3 +427,12 @@ def replay(prop, path):
         return 1
     print("no difference on the current tree")
     return 0
+
+
+ORACLES = {
+    "drift": lambda case, impl: drift_eval(case, impl),
+    "expected_blocks": lambda case, impl: [(p, None) for p in oracle_expected_blocks(case, impl)],
+    "diag_ranges": lambda case, impl: [(p, None) for p in oracle_diag_ranges(case, impl)],
+    "expect": lambda case, impl: [(p, None) for p in oracle_expect(case, impl)],
+    "unbalanced": lambda case, impl: [(p, None) for p in oracle_unbalanced(case, impl)],
+}
